@@ -227,7 +227,37 @@ def r7(p, rep):
     rep.ok("C12.R7", "summary", "", "every .end_pos read is a range/slice bound, `end_pos - 1`, a comparison or forwarded as an end position")
 
 
+UNICODE_DIGIT_TESTS = {"isdigit": "accepts superscripts and other Unicode digits that int() rejects", "isnumeric": "accepts fractions, Roman numerals etc. that int() rejects"}
+
+
+def r8(p, rep):
+    rep.rule("C12.R8", "number tokens are recognised by a test that agrees with int()", "contradiction lint (guard vs conversion)", floor=2)
+    m = p.module("namedtensor.stage1.parse")
+    n = 0
+    for node in ast.walk(m.tree):
+        if isinstance(node, ast.Call) and isinstance(node.func, ast.Attribute):
+            f = p.func_containing(node)
+            where = f.qualname if f else m.name
+            if node.func.attr in UNICODE_DIGIT_TESTS:
+                n += 1
+                rep.violation("C12.R8", f"{where}:{norm(node)}", f"{m.rel}:{node.lineno}", f"`{norm(node)}` {UNICODE_DIGIT_TESTS[node.func.attr]}: a description containing such a character passes the lexer and then fails in int() with ValueError instead of einx SyntaxError (the documented alphabet is [0-9]+)")
+            elif node.func.attr == "isdecimal" or (node.func.attr == "fullmatch" and "number" in norm(node.func.value)):
+                n += 1
+                ok = True
+                if node.func.attr == "fullmatch":
+                    vals = p.module_var(m, norm(node.func.value)) if isinstance(node.func.value, ast.Name) else []
+                    pat = next((c.value for v in vals for c in ast.walk(v) if isinstance(c, ast.Constant) and isinstance(c.value, str)), None)
+                    ok = pat is not None and re.fullmatch(r"\[0-9\]\+|\[0-9\]\[0-9\]\*|\\d\+", pat) is not None and pat != r"\d+"
+                    detail = f"number tokens match the regex {pat!r}"
+                else:
+                    detail = "str.isdecimal() agrees with int()"
+                rep.add("C12.R8", f"{where}:{norm(node)[:40]}", f"{m.rel}:{node.lineno}", ok, detail if ok else f"number regex {pat!r} admits characters int() may reject (\\d is Unicode-aware)")
+    if n == 0:
+        raise AnalysisError("unrecognised idiom: the parser has no recognisable number-token test")
+
+
 def run(p, rep, tier):
+    r8(p, rep)
     rep.rule("C12.R1", "parser dispatch chains cover their tables / node families", "T-EXH", floor=5)
     parse_funcs = [f for f in p.funcs.values() if f.module.name.endswith("namedtensor.stage1.parse") or f.module.name.endswith("namedtensor.stage1.transform")]
     common.exhaustiveness(p, rep, "C12.R1", funcs=parse_funcs)
